@@ -186,7 +186,7 @@ def node_of(path, rel, name, depth, content_facts=True, max_text=4096, zip_exts=
         tkind = KIND_OF.get(stat.S_IFMT(tst.st_mode), "?")
     except OSError:
         tkind = None
-    if content_facts and tkind == "f":
+    if content_facts and tkind == "f" and tst.st_size <= (8 << 20):
         try:
             with open(path, "rb") as fh:
                 data = fh.read()
